@@ -367,7 +367,11 @@ func tree(sb *strings.Builder, p capnp.Ptr, err error) {
 			}
 		}
 	default:
-		sb.WriteString("C" + strconv.FormatUint(uint64(p.Interface().Capability()), 10))
+		if treeCapByClient {
+			sb.WriteString("C" + clientID(p.Interface().Message(), uint32(p.Interface().Capability())))
+		} else {
+			sb.WriteString("C" + strconv.FormatUint(uint64(p.Interface().Capability()), 10))
+		}
 	}
 }
 
@@ -601,6 +605,9 @@ func execRead(t []string) string {
 	}
 	if len(t) == 2 && t[0] == "canon" {
 		return execCanon(t)
+	}
+	if len(t) == 3 && t[0] == "shadow" {
+		return execTree([]string{"tree", t[2]})
 	}
 	if len(t) == 2 && t[0] == "tree" {
 		return execTree(t)
